@@ -3,6 +3,7 @@ package main
 // Exec: VC generation context for one function under contract.
 
 import (
+	"os"
 	"fmt"
 	"go/token"
 	"go/types"
@@ -121,7 +122,74 @@ func (ex *Exec) assumeKind(kind string, reach, cond T) {
 	if cond.s == "true" {
 		return
 	}
-	ex.emit(fmt.Sprintf("(assert %s) ;@%s", implies(reach, cond).s, kind))
+	// a conjunction is asserted conjunct by conjunct: the cone-of-influence slicer and the quantifier tiers can then
+	// pick the facts an obligation needs instead of one monolithic (often nested-quantifier) formula
+	parts := []string{cond.s}
+	if os.Getenv("GOVC_SPLIT") != "" { // experimental: conjunct-wise assumptions helped some goals and hurt others
+		parts = splitConj(cond.s)
+	}
+	for _, c := range parts {
+		ex.emit(fmt.Sprintf("(assert %s) ;@%s", implies(reach, T{c, "Bool"}).s, kind))
+	}
+}
+
+// splitConj: the conjuncts of a term of the form (and a b ...), recursively; anything else is a single conjunct.
+func splitConj(s string) []string {
+	s = strings.TrimSpace(s)
+	if !strings.HasPrefix(s, "(and ") || !strings.HasSuffix(s, ")") {
+		return []string{s}
+	}
+	body := s[5 : len(s)-1]
+	var out []string
+	depth, start := 0, -1
+	inBar := false
+	for i := 0; i < len(body); i++ {
+		ch := body[i]
+		if ch == '|' {
+			inBar = !inBar
+		}
+		if inBar {
+			if start < 0 {
+				start = i
+			}
+			continue
+		}
+		switch {
+		case ch == '(':
+			if depth == 0 && start < 0 {
+				start = i
+			}
+			depth++
+		case ch == ')':
+			depth--
+			if depth < 0 {
+				return []string{s} // "(and ..." was not the outermost term
+			}
+			if depth == 0 && start >= 0 && body[start] == '(' {
+				out = append(out, splitConj(body[start:i+1])...)
+				start = -1
+			}
+		case ch == ' ' || ch == '\n' || ch == '\t':
+			if depth == 0 && start >= 0 {
+				out = append(out, body[start:i])
+				start = -1
+			}
+		default:
+			if depth == 0 && start < 0 {
+				start = i
+			}
+		}
+	}
+	if depth != 0 {
+		return []string{s}
+	}
+	if start >= 0 {
+		out = append(out, body[start:])
+	}
+	if len(out) == 0 {
+		return []string{s}
+	}
+	return out
 }
 
 func (ex *Exec) oblige(name, kind string, props []string, reach, cond T, where, text string) {
